@@ -73,6 +73,8 @@ enum Role {
     RefArray,
     CMapStream,
     Misc,
+    /// an indirect object that is nothing but a reference (to itself, to another alias, to anything)
+    Alias,
 }
 
 fn content_bytes(r: &mut Rng) -> Vec<u8> {
@@ -105,7 +107,7 @@ pub fn chaos_doc(r: &mut Rng) -> RDoc {
             } else {
                 *r.pick(&[
                     Role::Pages, Role::Page, Role::Page, Role::Font, Role::Content, Role::OutlineRoot, Role::OutlineItem, Role::OutlineItem, Role::Action, Role::NameTree, Role::Resources, Role::Image, Role::RefArray,
-                    Role::CMapStream, Role::Misc,
+                    Role::CMapStream, Role::Misc, Role::Alias,
                 ])
             }
         })
@@ -239,7 +241,8 @@ pub fn chaos_doc(r: &mut Rng) -> RDoc {
                     let a = if r.bool() { of_role(Role::Action, r) } else { RObj::Dict(vec![(k("S"), name("GoTo")), (k("D"), RObj::Array(vec![of_role(Role::Page, r), name("Fit")]))]) };
                     put(r, "A", a, &mut e);
                 } else {
-                    let dst = match r.below(4) {
+                    let dst = match r.below(5) {
+                        4 => of_role(Role::Alias, r),
                         0 => RObj::Array(vec![of_role(Role::Page, r), name("Fit")]),
                         1 => RObj::Str(b"named".to_vec(), false),
                         2 => RObj::Array(vec![of_role(Role::Page, r)]),
@@ -308,6 +311,11 @@ pub fn chaos_doc(r: &mut Rng) -> RDoc {
             }
             Role::RefArray => RObj::Array((0..r.usize_below(6)).map(|_| chaos_value(r, n, 2)).collect()),
             Role::Misc => chaos_value(r, n, 0),
+            Role::Alias => match r.below(3) {
+                0 => RObj::Ref(i, 0),
+                1 => of_role(Role::Alias, r),
+                _ => RObj::Ref(1 + r.below(n as u64) as u32, 0),
+            },
         };
         d.objects.insert((i, 0), obj);
     }
